@@ -56,7 +56,7 @@ class Group:
                  wrap_checks=False, kind="proof", timeout=900, bound=None,
                  must_fail=(), expect_classes=(), replay=None, tiers=("quick", "thorough"),
                  functions=(), extra_cbmc=(), note="", safety=True, assumed=(),
-                 drop_unused=False, object_bits=None, nondet_static=False):
+                 drop_unused=False, object_bits=None, nondet_static=False, trace=True):
         self.name = name
         self.props = list(props)
         self.harness = harness
@@ -87,6 +87,7 @@ class Group:
         self.drop_unused = drop_unused
         self.object_bits = object_bits
         self.nondet_static = nondet_static
+        self.trace = trace                      # False where CBMC 6.11 crashes while building the counterexample trace
 
 
 class Result:
@@ -215,7 +216,7 @@ def run_group(g, reach=False, keep=False):
                 r.error = "goto-instrument --dfcc failed: " + (err or out)[-2500:]
                 return r
             cur = nxt
-        cb = ["cbmc", "--sat-solver", "cadical", "--json-ui", "--trace"]
+        cb = ["cbmc", "--sat-solver", "cadical", "--json-ui"] + (["--trace"] if g.trace else [])
         if g.safety:
             cb += SAFETY_FLAGS
             if g.wrap_checks:
